@@ -1342,6 +1342,14 @@ public:
         return this->do_emplace_hint_equal(hint, std::forward<KK>(k), std::forward<Args>(args)...);
     }
     using node_type = typename __ordered_tab<K, V, true>::node_type;
+    iterator insert(iterator hint, node_type&& nh) // hinted node insertion: same position rule as emplace_hint
+    {
+        if (nh.empty())
+            return this->end();
+        iterator r = this->do_emplace_hint_equal(hint, std::move(nh.m_k), std::move(nh.m_v));
+        nh.m_has   = false;
+        return r;
+    }
     iterator insert(node_type&& nh)
     {
         if (nh.empty())
